@@ -186,6 +186,10 @@ func checkC04(r *Result) {
 		}
 		r.check(n == 1, "FEE-IN-FULL", "(x/reporter/keeper.Keeper).FeefromReporterStake # one transfer to the dispute account", pos(ff.Pos()), fmt.Sprint(n))
 	}
+	// the first fee of a dispute: what is credited to the proposer and booked as the fee total is what was moved in
+	if snd := need("(x/dispute/keeper.Keeper).SetNewDispute"); snd != nil {
+		checkSameAmountVersion(r, "FEE-IN-FULL", snd)
+	}
 	// ---- TIP-PAIR
 	if tr := need("(x/oracle/keeper.Keeper).transfer"); tr != nil {
 		le := &linEval{Atomise: func(t *Term) string {
